@@ -2,11 +2,13 @@ SPECIFICATION Spec
 CONSTANTS
   ClassLevelPropagate = FALSE
   ParamResolve = FALSE
+  InitRestated = FALSE
   OriginFromSuper = FALSE
   AllowModifyBusy = FALSE
   Parent <- Free6
   Mode = "shape"
   QSels = {{}}
+  Vias = {"api"}
   InstKeys = {1, 2}
   WithModify = FALSE
   AllFlags = FALSE
